@@ -83,11 +83,23 @@ GetPanicsDebug(q) == q.tab < 0                                 \* checkQueryGet
 GetPanicsNoDebug(q) == q.cur = NoTable                         \* nil table / reset column pointer dereferenced
 GetQ(q) == IF q.cur = NoTable \/ q.idx + 1 > Len(q.cur) THEN 0 ELSE q.cur[q.idx + 1]
 
+\* what a complete iteration must yield
+Expected(lay) ==
+    LET RECURSIVE T(_) RECURSIVE A(_)
+        T(ts) == IF ts = <<>> THEN <<>> ELSE (IF Head(ts).ok THEN Head(ts).rows ELSE <<>>) \o T(Tail(ts))
+        A(i) == IF i > Len(lay) THEN <<>> ELSE (IF lay[i].m THEN T(lay[i].tabs) ELSE <<>>) \o A(i + 1)
+    IN A(1)
+
+
 \* Step(q, lay, cached, call): the outcome of one call - [q, panic, res] with res: Next -> 1/0, Get -> entity
 Step(q, lay, cached, call) ==
     CASE call = "Next" -> LET r == NextQ(q, lay, cached) IN [q |-> r.q, panic |-> r.panic, res |-> IF r.res THEN 1 ELSE 0]
       [] call = "Get" -> IF GetPanicsDebug(q) THEN [q |-> q, panic |-> TRUE, res |-> 0] ELSE [q |-> q, panic |-> FALSE, res |-> GetQ(q)]
       [] call = "Close" -> [q |-> CloseQ(q), panic |-> FALSE, res |-> 0]
+      \* Count / EntityAt do not depend on the cursor (query_count.go): they work before, during and after the iteration
+      [] call = "Count" -> [q |-> q, panic |-> FALSE, res |-> Len(Expected(lay))]
+      [] call = "At0" -> IF Expected(lay) = <<>> THEN [q |-> q, panic |-> TRUE, res |-> 0] ELSE [q |-> q, panic |-> FALSE, res |-> Expected(lay)[1]]
+      [] call = "AtN" -> [q |-> q, panic |-> TRUE, res |-> 0]
 
 \* Run(lay, cached, calls): outcomes <<[panic, res, lock]>> of a call sequence from a fresh query
 RECURSIVE RunFrom(_, _, _, _)
@@ -96,12 +108,5 @@ RunFrom(q, lay, cached, calls) ==
     ELSE LET r == Step(q, lay, cached, Head(calls)) IN
          <<[panic |-> r.panic, res |-> r.res, lock |-> r.q.lock]>> \o RunFrom(r.q, lay, cached, Tail(calls))
 Run(lay, cached, calls) == RunFrom(Q0, lay, cached, calls)
-
-\* what a complete iteration must yield
-Expected(lay) ==
-    LET RECURSIVE T(_) RECURSIVE A(_)
-        T(ts) == IF ts = <<>> THEN <<>> ELSE (IF Head(ts).ok THEN Head(ts).rows ELSE <<>>) \o T(Tail(ts))
-        A(i) == IF i > Len(lay) THEN <<>> ELSE (IF lay[i].m THEN T(lay[i].tabs) ELSE <<>>) \o A(i + 1)
-    IN A(1)
 
 =============================================================================
